@@ -705,7 +705,13 @@ pub fn run_group_raw(units: &[&Unit], dir: &Path, src: &Path, drv_classes: &Path
     let tf = dir.join("task.txt");
     let t1 = std::time::Instant::now();
     let cp = format!("{}:{}", drv_classes.display(), classes.display());
-    let (res, _) = run_driver_with(n_ops, usize::MAX, &dir.join("out.txt"), &|start, _quiet| {
+    let mut unit_ends: Vec<usize> = vec![];
+    let mut acc = 0usize;
+    for u in units {
+        acc += u.ops.len();
+        unit_ends.push(acc);
+    }
+    let (res, _) = run_driver_with(n_ops, usize::MAX, &dir.join("out.txt"), &unit_ends, &|start, _quiet| {
         let mut c = Command::new("timeout");
         c.args(["-s", "KILL", "300", "java", "-XX:TieredStopAtLevel=1", "-XX:+UseSerialGC", "-Xshare:auto", "-Xmx1g", "-Xss2m", "-cp"]).arg(&cp).arg("Drv").arg(&tf).arg(start.to_string());
         c
